@@ -67,7 +67,7 @@ json points_of(const std::vector<sdkm::MetricData> &got)
     {
       bool ovf = false;
       json p;
-      p["a"]   = abstract_attrs(pa.attributes, kKt, 4, &ovf);
+      p["a"]   = abstract_attrs(pa.attributes, kKt, kVf, 4, &ovf);
       p["o"]   = ovf;
       long val = kGarbage;
       if (auto sp = nostd::get_if<sdkm::SumPointData>(&pa.point_data))
